@@ -51,7 +51,9 @@ func closeTo(got float64, want *big.Rat) bool {
 
 // textShows: one of the numbers in the text equals v to three decimals.
 func textShows(text string, v float64) bool {
-	isNum := func(r rune) bool { return r >= '0' && r <= '9' || r == '.' || r == '-' || r == '+' || r == 'e' || r == 'E' }
+	isNum := func(r rune) bool {
+		return r >= '0' && r <= '9' || r == '.' || r == '-' || r == '+' || r == 'e' || r == 'E'
+	}
 	for _, tok := range strings.FieldsFunc(text, func(r rune) bool { return !isNum(r) }) {
 		x, err := strconv.ParseFloat(tok, 64)
 		if err == nil && math.Abs(x-v) <= 0.00051+math.Abs(v)*1e-15 {
